@@ -356,7 +356,7 @@ func cmdCheck(args []string) int {
 			} else {
 				// generous on purpose: on a quiet machine no quick job takes more than two minutes; the
 				// budget only decides when a loaded machine turns a verdict into "inconclusive"
-				j.Budget = 25 * time.Minute
+				j.Budget = 12 * time.Minute
 			}
 		}
 		if j.CrossCheckEvery == 0 {
